@@ -177,8 +177,7 @@ async def one_case(enc, mac, comp, direction, kind, k, sizes, taglen):
         for name, data in items:
             if data is None:
                 if not wire.lost[rside]:
-                    wire.tr[rside].closed = True
-                    wire._lose(rside, None)
+                    wire.stream_end(rside)       # FIN: eof_received(), then connection_lost(None)
             elif not wire.lost[rside]:
                 wire._deliver_bytes(fside, bytes(data))
             await memwire.settle(3)
